@@ -66,6 +66,12 @@ int main(int argc, char** argv) {
     if (focus == "c02" && c.threads < 2)
       c.threads = std::min(maxT, 2 + (unsigned)rng.below(maxT));
     c.recordLevels = wl.flags & (F_BSP | F_BARRIER);
+    // a level-synchronous OBIM without the monotonic option also accepts pushes that are more urgent than the level
+    // being executed; the level-order oracle (C08) is only defined for non-decreasing pushes, conservation is not
+    if ((wl.flags & F_BARRIER) && !(wl.flags & F_MONOTONE) && focus != "c08" && rng.below(3) == 0) {
+      c.anyPrioChildren = true;
+      c.recordLevels    = false;
+    }
     generate(c, rng, wl, H.thorough, maxItemsParam);
     bool piaStress = false;
     if (focus == "c02" && c.pia && rng.below(3) == 0 && !VERIF_ASAN && !VERIF_TSAN) {
@@ -76,6 +82,24 @@ int main(int argc, char** argv) {
       for (auto& p : c.prog)
         p.allocBytes = 4000;
     }
+    // "discarded before it is retried": in an abort storm (every item aborts voluntarily on its first K attempts) a thread
+    // runs long stretches of aborted attempts without a commit in between. Each attempt takes 256 KiB from the
+    // per-iteration allocator; if an aborted attempt kept its allocation until the thread's next commit, the threads would
+    // together hold about items*K*256 KiB at the end of the storm, against one 2 MB page per thread when it is discarded.
+    bool piaStorm = false;
+    uint64_t stormAttempts = 0;
+    if (focus == "c02" && c.pia && !piaStress && !VERIF_ASAN && !VERIF_TSAN && !c.prog.empty() && c.prog[0].vaborts >= 4) {
+      bool all = true;
+      for (auto& p : c.prog)
+        all &= p.vaborts >= 4;
+      if (all) {
+        piaStorm = true;
+        for (auto& p : c.prog) {
+          p.allocBytes = 256u << 10;
+          stormAttempts += p.vaborts;
+        }
+      }
+    }
     size_t pagesBefore = galois::runtime::numPagePoolAllocTotal();
     unsigned pointProb = (unsigned)rng.pick({0, 0, 64, 1024, 4096});
     unsigned spinProb  = (unsigned)rng.pick({0, 0, 512, 8192});
@@ -84,6 +108,7 @@ int main(int argc, char** argv) {
     uint64_t pseed = rng.next();
     H.hangKey      = c.key("C01", "hang");
     H.begin(k, J().kv("component", c.family).kv("worklist", c.wlName).kv("conflict_detection", c.conflicts)
+                   .kv("children_at_any_priority", c.anyPrioChildren)
                    .kv("per_iter_alloc", c.pia).kv("threads", c.threads).kv("sockets", nsock)
                    .kv("items", (uint64_t)c.prog.size()).kv("initial", (uint64_t)c.initial.size())
                    .kv("objects", c.nObjs).kv("pointProb", pointProb).kv("spinProb", spinProb).str());
@@ -117,6 +142,19 @@ int main(int argc, char** argv) {
                       J().kv("worklist", c.wlName).kv("attempts", cnt.starts).kv("bytes_allocated_by_attempts", bytes)
                           .kv("page_pool_pages_before", (uint64_t)pagesBefore).kv("after", (uint64_t)pagesAfter)
                           .kv("pages_a_leak_would_need", wouldNeed).str());
+      }
+    }
+    if (piaStorm && c.threads > 1) {
+      size_t pagesAfter  = galois::runtime::numPagePoolAllocTotal();
+      uint64_t keptPages = stormAttempts * (256u << 10) / (2ull << 20); // what "kept until the next commit" would hold
+      uint64_t allowed   = 3ull * c.threads + 8;                        // one page per thread + worklist/abort-queue chunks
+      if (keptPages >= 4 * allowed) {                                   // only decisive when the difference is unmistakable
+        piaStressCases = 1;
+        if (pagesAfter - pagesBefore > allowed + keptPages / 8)
+          H.violation(c.key("C02", "per-iter-alloc-kept-across-aborts"),
+                      J().kv("worklist", c.wlName).kv("aborted_attempts_in_storm", stormAttempts).kv("bytes_per_attempt", 256u << 10)
+                          .kv("page_pool_pages_before", (uint64_t)pagesBefore).kv("after", (uint64_t)pagesAfter)
+                          .kv("pages_if_kept_until_next_commit", keptPages).kv("allowed", allowed).kv("threads", c.threads).str());
       }
     }
     uint64_t levels   = 0;
